@@ -5,6 +5,7 @@ the model's prediction for every kill point of that op.
 -/
 import Driver.StoreEng
 import KyroModel.Persist.Damage
+import KyroModel.Persist.Backup
 
 namespace Driver.PersistEng
 open KyroModel Driver
@@ -14,6 +15,8 @@ structure St where
   disk : Disk
   nums : List (String × Nat)
   down : Bool := false          -- after a failed restart
+  bks : List Backup := []
+  tampered : List Nat := []     -- backups whose files were damaged by the harness
 
 
 def showDocs (d : Docs) : String :=
@@ -117,6 +120,94 @@ def sweep (d : Disk) (faults : String) : String :=
       | none => "bad-view"
     | _ => "bad-fault")
 
+def showBkErr : BkErr → String
+  | .noNewWal => "err:no_new_wal"
+  | .notFound => "err:not_found"
+  | .checksum => "err:checksum"
+  | .needsConfirmation => "err:needs_confirmation"
+  | .noFull => "err:no_full"
+  | _ => "err:other"
+
+def showManifestView (m : Manifest) : String :=
+  s!"{showOpt m.snap}/{showOpt m.snapSeq}/{showNatList m.segs}"
+
+def showMembers (b : Backup) : String :=
+  let parts := (b.snaps.map fun (n, _) => s!"s{n}") ++
+    (match b.manifest with | some m => [s!"M({showManifestView m})"] | none => []) ++
+    (b.wals.map fun (n, _) => s!"w{n}")
+  if parts.isEmpty then "-" else ",".intercalate parts
+
+def showBackup (k : Nat) (b : Backup) : String :=
+  s!"ok b={k} type={if b.full then "full" else "incr"} ts={b.ts} parent={showOpt b.parent} maxwal={showOpt b.maxWal} snap={showOpt b.snap} members={showMembers b}"
+
+def parseMod (s : String) : Nat → Bool :=
+  let pairs := if s == "-" then [] else (s.splitOn ",").filterMap fun kv =>
+    match kv.splitOn ":" with
+    | [k, v] => k.toNat?.map fun n => (n, v == "1")
+    | _ => none
+  fun n => ((pairs.find? (·.1 == n)).map (·.2)).getD false
+
+def showRestore (bs : List Backup) (tampered : List Nat) (chainR : Except BkErr (List Nat))
+    (dirty clear : Bool) : String :=
+  match chainR with
+  | .error e => s!"{showBkErr e} junk={if dirty then "kept" else "-"} touched=0"
+  | .ok chain =>
+    if chain.any tampered.contains then "unpredicted" else
+    match restoreChain bs chain dirty clear with
+    | .error e => s!"{showBkErr e} junk={if dirty then "kept" else "-"} touched=0"
+    | .ok d => s!"ok rec={showRecover d} junk={if dirty then "gone" else "-"}"
+
+def bkStep (s : St) (op : String) (fs : List (String × String)) : Option (St × String) :=
+  match op with
+  | "tick" => some (s, "ok")
+  | "bk_full" =>
+    match natField? fs "ts" with
+    | none => none
+    | some ts =>
+      match fullBackup s.disk ts with
+      | .ok b => some ({ s with bks := s.bks ++ [b] }, showBackup s.bks.length b)
+      | .error e => some (s, showBkErr e)
+  | "bk_incr" =>
+    match natField? fs "parent", natField? fs "ts", field? fs "mod" with
+    | some p, some ts, some md =>
+      match incrBackup s.bks s.disk p (parseMod md) ts with
+      | .ok b => some ({ s with bks := s.bks ++ [b] }, showBackup s.bks.length b)
+      | .error e => some (s, showBkErr e)
+    | _, _, _ => none
+  | "bk_restore" =>
+    match natField? fs "b", boolField? fs "clear", field? fs "target" with
+    | some k, some clear, some tg =>
+      some (s, showRestore s.bks s.tampered (chainOf s.bks (s.bks.length + 1) k []) (tg == "dirty") clear)
+    | _, _, _ => none
+  | "bk_pitr" =>
+    match natField? fs "ts", boolField? fs "clear", field? fs "target" with
+    | some t, some clear, some tg =>
+      if pitrAmbiguous s.bks t then some (s, "unpredicted")
+      else some (s, showRestore s.bks s.tampered (pitrChain s.bks t) (tg == "dirty") clear)
+    | _, _, _ => none
+  | "bk_prune" =>
+    match natField? fs "hourly", natField? fs "daily", natField? fs "weekly", natField? fs "monthly",
+          natField? fs "minage", natField? fs "now" with
+    | some h, some d, some w, some m, some a, some now =>
+      let pol : Policy := ⟨h, d, w, m, a⟩
+      let del := prunedBy s.bks pol now
+      -- equal timestamps inside one bucket: the real choice depends on directory order
+      let tie := (present s.bks).any fun i => (present s.bks).any fun j =>
+        i != j && (s.bks[i]?.map (·.ts)) == (s.bks[j]?.map (·.ts))
+      if tie then
+        -- the outcome depends on directory order: take it as an input
+        match natListField? fs "obs" with
+        | some obs => some ({ s with bks := markGone s.bks obs }, "unpredicted")
+        | none => none
+      else some ({ s with bks := markGone s.bks del }, s!"deleted={showNatList del}")
+    | _, _, _, _, _, _ => none
+  | "bk_damage" =>
+    match natField? fs "b" with
+    | some k => some ({ s with tampered := k :: s.tampered }, "unpredicted")
+    | none => none
+  | "bk_sizes" => some (s, "unpredicted")
+  | _ => none
+
 def showOut : POut → String
   | .ok => "ok" | .full => "full" | .rejected => "rejected" | .bool b => showBool b
   | .count n => toString n | .err => "err"
@@ -133,12 +224,17 @@ def step (st : Option St) (line : String) : Option St × String :=
     match natField? fs "cap", natField? fs "snap", natField? fs "rot" with
     | some cap, some snap, some rot =>
       let (e, as) := pInit ⟨snap, rot, cap⟩
-      (some ⟨e, emptyDisk.applyAll as, [], false⟩,
+      (some { eng := e, disk := emptyDisk.applyAll as, nums := [] },
         s!"ok acts={";".intercalate (as.map showAct)} rec={prefixOutcomes emptyDisk as}")
     | _, _, _ => (st, "bad-op")
   | _, none => (none, "bad-op:no-cfg")
   | _, some s0 =>
     let s : St := { s0 with nums := StoreEng.addNums s0.nums ((field? fs "nums").getD "-") }
+    if op == "tick" || op.startsWith "bk_" then
+      match bkStep s op fs with
+      | some (s', o) => (some s', o)
+      | none => (some s, "unpredicted")
+    else
     if s.down && op != "restart" && op != "disk" && op != "sweep" then (some s, "down") else
     match op with
     | "insert" =>
